@@ -116,6 +116,15 @@ def stale_histories(out, n):
 JOB_NAMES = ["wf", "wf", "Order Processing", "a b  c", "wf_1"]     # the CLI derives file names from the job name (spaces -> _)
 
 
+def entry_variant(rec, rnd):
+    """half of the definitions that begin `event; fork` are used without the leading event, so that the jobs enter through
+    different events (a later chunk can then bring a job entry event never seen before)"""
+    d = rec["d"]
+    if len(d) >= 2 and d[0][0] == "ev" and d[1][0] == "fork" and rnd.random() < 0.6:
+        return dict(id=rec["id"] + "-ms", events=rec["events"] - 1, jobs=rec["jobs"], d=d[1:], multi_start=True)
+    return rec
+
+
 def write_jobs(d: Path, jobs, offset=0, jn="wf"):
     d.mkdir(parents=True, exist_ok=True)
     for i, j in enumerate(jobs):
@@ -234,6 +243,7 @@ Eval vm_compute in (4%nat, idx (fun c => let '(ops, st, tn, o, i) := c in same (
     recs = L.select(pool, out.seed + 3, "quick", explore or (24 if quick else 300))
     cases = []
     for rec in recs:
+        rec = entry_variant(rec, rnd)
         jobs = L.complete_jobs(rec)
         if len(jobs) < 2:
             continue
